@@ -16,10 +16,10 @@ tech = {
  "C10": "runtime monitoring: error-kind monitor against the reference model's element label of the first offending byte; TooManyHeaders law vs the model with the call's capacity",
  "C11": "runtime monitoring: completion-search monitor over every observed Partial (finite suffix set)",
  "C12": "runtime monitoring: direct scanner calls on guard-page buffers vs class predicates (bounded-exhaustive); NEON source over emulated intrinsics; Miri with forced AVX2/SSE4.2",
- "C13": "runtime monitoring: result digests of a shared corpus across 14 build/backend variants; 96 cfg-lattice builds; 16-thread cold-start race with detection histogram; Miri many-seeds (+TSan in thorough)",
+ "C13": "runtime monitoring: result digests of a shared corpus across 14 build/backend variants; 96 cfg-lattice builds; cold-start race in fresh processes (16 threads on all cores; 32/48 threads pinned to 1/2 CPUs with wake-up preemption) with detection histogram; Miri many-seeds (+TSan in thorough)",
  "C14": "runtime monitoring: differential monitor against the option-parameterised reference parser under every header-option combination",
  "C15": "runtime monitoring: metamorphic monitor over all 128 configurations per buffer",
- "C16": "runtime monitoring: pairwise agreement monitor over the entry points on fresh and reused values; parse_headers vs message parse",
+ "C16": "runtime monitoring: pairwise agreement monitor over the entry points on fresh and reused values; parse_headers vs message parse (fixed start lines in front of header blocks, and every message's own header block)",
  "C17": "runtime monitoring: sentinel/poison monitor on the caller's array, capacity-law metamorphic check against an ample-capacity run (+ Miri with truly uninitialised arrays)",
  "C18": "runtime monitoring: reused-value histories (1..4 earlier calls) vs a fresh-value probe; documented-loop clause",
  "C19": "runtime monitoring: counting global allocator around every call, first call of fresh processes; core-only target build (dev+release)",
